@@ -213,6 +213,73 @@ func runDeterminism(e *Engine, res *checkResult, timeout int, two bool, work str
 					}
 				}
 			}
+			// closures of this function that the loop body calls share its
+			// variables: a map variable captured by such a closure that the
+			// closure (or the body) writes and a closure reads carries state from
+			// one iteration to the next
+			capName := func(v ssa.Value) string {
+				if u, ok := v.(*ssa.UnOp); ok && u.Op == token.MUL {
+					switch a := u.X.(type) {
+					case *ssa.FreeVar:
+						return a.Name()
+					case *ssa.Alloc:
+						return a.Comment
+					}
+				}
+				return ""
+			}
+			var called []*ssa.Function
+			seenFn := map[*ssa.Function]bool{}
+			for b := range lp.body {
+				for _, ins := range b.Instrs {
+					ci, ok := ins.(ssa.CallInstruction)
+					if !ok {
+						continue
+					}
+					for _, g := range e.possibleCallees(ci.Common()) {
+						if g.Parent() == m.fn && !seenFn[g] {
+							seenFn[g] = true
+							called = append(called, g)
+						}
+					}
+				}
+			}
+			capWritten := map[string]bool{}
+			scanWrites := func(blocks []*ssa.BasicBlock) {
+				for _, b := range blocks {
+					for _, ins := range b.Instrs {
+						switch x := ins.(type) {
+						case *ssa.MapUpdate:
+							if n := capName(x.Map); n != "" {
+								capWritten[n] = true
+							}
+						case ssa.CallInstruction:
+							if bi, ok := x.Common().Value.(*ssa.Builtin); ok && bi.Name() == "delete" && len(x.Common().Args) == 2 {
+								if n := capName(x.Common().Args[0]); n != "" {
+									capWritten[n] = true
+								}
+							}
+						}
+					}
+				}
+			}
+			for _, g := range called {
+				scanWrites(g.Blocks)
+			}
+			for _, g := range called {
+				for _, b := range g.Blocks {
+					for _, ins := range b.Instrs {
+						if lk, ok := ins.(*ssa.Lookup); ok {
+							if _, isMap := lk.X.Type().Underlying().(*types.Map); !isMap {
+								continue
+							}
+							if n := capName(lk.X); n != "" && capWritten[n] {
+								cross = fmt.Sprintf("%s (in a closure called by the loop) reads the captured map %s that a closure called by the loop writes", e.lineText(lk.Pos()), n)
+							}
+						}
+					}
+				}
+			}
 			written := map[ssa.Value]map[ssa.Value]bool{}
 			for b := range lp.body {
 				for _, ins := range b.Instrs {
